@@ -2,6 +2,7 @@ from __future__ import annotations
 
 import json
 import logging
+import math
 import sys
 from typing import Union
 
@@ -625,7 +626,7 @@ def create_meanfield(
                         # variance \alpha/\beta^2=0.01*tensor
                         tensor = torch.tensor(json_object["tensor"])
                         log_concentration = (tensor / 0.01).log().tolist()
-                        log_rate = torch.log(1.0 / 0.01).tolist()
+                        log_rate = math.log(1.0 / 0.01)
                         distr, concentration, rate = create_gamma_distribution(
                             var_id,
                             json_object['id'],
